@@ -1,10 +1,13 @@
 #!/bin/bash
 # usage: trymut.sh <patch.diff> <ID> [extra vcheck args]   — apply a patch to /repo, run the check, always revert.
+# The evidence file of the property is saved and restored: evidence committed in /verif must come from the unchanged tree.
 set -u
 patch="$(realpath "$1")"; id="$2"; shift 2
 cd /repo || exit 2
 if ! git diff --quiet; then echo "/repo is dirty, refusing"; exit 2; fi
 git apply "$patch" || { echo "patch does not apply"; exit 2; }
-trap 'git -C /repo checkout -- . ' EXIT
+ev=/verif/evidence/$id.json
+[ -f "$ev" ] && cp "$ev" "$ev.saved"
+trap 'git -C /repo checkout -- . ; [ -f "$ev.saved" ] && mv "$ev.saved" "$ev"' EXIT
 cd /verif && bin/vcheck "$id" "$@" 2>&1 | tail -12
 echo "exit=${PIPESTATUS[0]}"
